@@ -1,5 +1,6 @@
 import D2P.Model.Numbering
 import D2P.Proofs.Dict
+import D2P.Props.C15
 /-!
 # C14 — extraction is a pure function: the stateful piece (list counters)
 
@@ -36,5 +37,55 @@ theorem C14_par_number_memo (b : Bullets) (p : Xml) (pid : Nat) :
 theorem C14_counters_stable (b : Bullets) (p : Xml) (pid : Nat) :
     (parNumber (parNumber b p pid).1 p pid).1.counts = (parNumber b p pid).1.counts := by
   rw [C14_par_number_memo]
+
+/-! ## Read histories over the cache machine
+
+`Res.value a` is "the value a fresh object returns for attribute `a`"; that the value served
+from the caches *is* that value is what the correspondence observes. What the machine adds is
+the quantifier: every history, of any length, in any order, over any cache state. -/
+
+def isRead : Op → Bool | .read _ => true | _ => false
+
+def expected : Op → Res | .read a => .value a | .save => .saved | _ => .done true
+
+theorem read_keeps_open (needs : Needs) (allRaw : List UnitKey) (s : LState) (a : Nat)
+    (h : s.closed = false) : (step needs allRaw s (.read a)).1.closed = false := by
+  simp only [step]
+  split
+  · rename_i s' hf; simp only; rw [(fetch_closed s s' _ hf).1]; exact h
+  · exact h
+
+/-- **C14: repeated reads, in any order, from any cache state of an unclosed reader, all return
+the value a fresh object returns** — every read history, no bound on its length. -/
+theorem C14_read_histories (needs : Needs) (allRaw : List UnitKey) :
+    ∀ (ops : List Op) (s : LState), s.closed = false → ops.all isRead = true →
+      (run needs allRaw s ops).2 = ops.map expected := by
+  intro ops
+  induction ops with
+  | nil => intro s _ _; rfl
+  | cons op ops ih =>
+    intro s hc hall
+    simp only [List.all_cons, Bool.and_eq_true] at hall
+    cases op with
+    | read a =>
+      simp only [run, List.map_cons, expected]
+      rw [C15_before_close needs allRaw s a hc, ih _ (read_keeps_open needs allRaw s a hc) hall.2]
+    | save => simp [isRead] at hall
+    | close => simp [isRead] at hall
+    | withExit b => simp [isRead] at hall
+
+/-- two histories that read the same attribute anywhere agree on it, whatever else was read
+before: the value of a read does not depend on the prefix -/
+theorem C14_prefix_independent (needs : Needs) (allRaw : List UnitKey) (pre₁ pre₂ : List Op)
+    (s₁ s₂ : LState) (a : Nat) (h₁ : s₁.closed = false) (h₂ : s₂.closed = false)
+    (r₁ : pre₁.all isRead = true) (r₂ : pre₂.all isRead = true) :
+    (run needs allRaw s₁ (pre₁ ++ [.read a])).2.getLast? =
+      (run needs allRaw s₂ (pre₂ ++ [.read a])).2.getLast? := by
+  rw [C14_read_histories needs allRaw _ s₁ h₁ (by simp [r₁, isRead]),
+      C14_read_histories needs allRaw _ s₂ h₂ (by simp [r₂, isRead])]
+  simp [expected]
+
+example : (run (fun _ a => ⟨[.files, .root (lit "word/document.xml")], [lit "word/document.xml"]⟩) []
+    {} [.read 3, .read 1, .read 3]).2 = [.value 3, .value 1, .value 3] := by decide
 
 end D2P
